@@ -372,6 +372,7 @@ type normalizer struct {
 	fset    *token.FileSet
 	pkg     *packages.Package
 	src     map[string]string // filename -> content
+	overlay map[string][]byte // the variant's files that differ from the disk
 	newFn   map[*types.Func]*ast.FuncDecl
 	leaf    map[*types.Func]bool
 	kind    map[*types.Func]string
@@ -390,7 +391,7 @@ func Normalize(fset *token.FileSet, pkgs []*packages.Package, known map[string]b
 		if pk.TypesInfo == nil || len(pk.Errors) > 0 {
 			continue
 		}
-		n := &normalizer{fset: fset, pkg: pk, src: map[string]string{}, newFn: map[*types.Func]*ast.FuncDecl{}, leaf: map[*types.Func]bool{}, res: res}
+		n := &normalizer{fset: fset, pkg: pk, overlay: overlay, src: map[string]string{}, newFn: map[*types.Func]*ast.FuncDecl{}, leaf: map[*types.Func]bool{}, res: res}
 		for _, f := range pk.Syntax {
 			for _, d := range f.Decls {
 				fd, ok := d.(*ast.FuncDecl)
@@ -963,7 +964,9 @@ func (n *normalizer) inline(call *ast.CallExpr, callee *types.Func, caller strin
 	}
 	calleeFile := n.fset.File(fd.Pos()).Name()
 	if _, ok := n.src[calleeFile]; !ok {
-		if b, err := os.ReadFile(calleeFile); err == nil {
+		if b, inOv := n.overlay[calleeFile]; inOv {
+			n.src[calleeFile] = string(b)
+		} else if b, err := os.ReadFile(calleeFile); err == nil {
 			n.src[calleeFile] = string(b)
 		} else {
 			return n.skip(call, callee, "source of the helper not available")
